@@ -396,6 +396,12 @@ impl<'a> V<'a> {
                 cx.bits(&r, &b, "the replacement value")?;
                 cx.bits(&SimdValue::select(a.clone(), true, b.clone()), &a, "self")?;
                 cx.bits(&SimdValue::select(a.clone(), false, b.clone()), &b, "other")?;
+                // the unchecked variants (unsafe fns of the trait) behave identically on the single lane
+                let eu = unsafe { SimdValue::extract_unchecked(&a, 0) };
+                cx.bits(&eu, &a, "the value itself (extract_unchecked)")?;
+                let mut ru = a.clone();
+                unsafe { SimdValue::replace_unchecked(&mut ru, 0, b.clone()) };
+                cx.bits(&ru, &b, "the replacement value (replace_unchecked)")?;
                 if <T as SimdValue>::LANES != 1 {
                     return Err(Verdict::Fail { sig: "C11/SimdValue/lanes".into(), why: format!("LANES = {}", <T as SimdValue>::LANES) });
                 }
